@@ -10,6 +10,7 @@
 #define C13_GLUE_H
 #include "prelude.h"
 #include <math.h>
+#include <float.h>
 
 #ifndef D
 #error "shape not given"
@@ -27,7 +28,8 @@ typedef struct { double* a; size_t n; } vp_vec_d;
 vp_vec_u sizes, multipliers;
 vp_vec_b directions_in_which_periodic_b_cond_are_to_be_imposed;
 vp_vec_d data;
-static void vp_data_init(size_t n, double v) { data.n = n; (void)v; }   /* std::vector<T>(n, v): only the size matters here */
+double g_fill;                                       /* the value every cell starts with */
+static void vp_data_init(size_t n, double v) { data.n = n; g_fill = v; }   /* std::vector<T>(n, v) */
 
 /* ---- the shape of this unit, and the specification of the geometry written from it ------------------------ */
 #ifndef S1
